@@ -28,28 +28,18 @@ CLAIMED = {
         technique='Coq proof over executable Gallina models + differential correspondence + direct round-trip oracle',
         ref='7/C03'),
     'C04': dict(
-        text='Shared escaping/unescaping inverse theorem; OpenMetrics exposition model tied byte-exactly to generate_latest; direct '
-             'oracle parse(expose(r)) == collect(r) on generated registries with units, exemplars and the three timestamp forms '
-             '(direction 1) and parse(expose(parse(d))) == parse(d) on accepted documents (direction 2, when harness/c04b.py is present).',
-        note='Partial: the family-level inverse theorems are not yet proved; what a run stands on is listed in props/C04.v. Trusted: as C03 '
-             'plus samples.Timestamp arithmetic.',
+        text='22 theorems on the models of the OpenMetrics exposition (model/Expo.v) and parser (model/OMParser.v), for ARBITRARY names, label names, label values, help texts and exemplar labels: L1-L3 (unescape(escape s) = s; quoted text skipped by the scanner; the label block is read back exactly, also in OpenMetrics mode and behind a quoted metric name); L4 the whole sample line - series, value, optional timestamp, optional exemplar - is read back as exactly that sample (character state machine of _parse_remaining_text, brace scans, exemplar labels); L5 HELP/TYPE/UNIT lines are read back exactly, any list of gauge families and a counter family with exemplars followed by # EOF parse back to exactly those families; refutation witnesses for the pinned defects (timestamp exponent, sample name, exemplar eligibility, quote toggle). Tie: byte-exact differential testing of the exposition against the extracted renderer and of the parser against the extracted parser, direct oracle parse(expose(r)) == collect(r) on generated registries (units, exemplars incl. ineligible ones, three timestamp forms) and parse(expose(parse(d))) == parse(d) on accepted documents.',
+        note='Partial: family-level round trip is proved for gauge and counter families; histogram, summary, info and stateset families and the second direction rest on the correspondence and the direct oracle. Hypotheses of L4/L5 are CPython facts about the number tokens (checked per case) plus what the constructors guarantee. Three known findings (int not a double, two timestamp classes at one instant, mixed-class timestamps compared through float). Trusted: as C03 plus samples.Timestamp arithmetic.',
         technique='Coq proof over executable Gallina models + differential correspondence + direct round-trip oracle',
         ref='7/C04'),
     'C05': dict(
-        text='Theorems: escaped text never contains a raw line feed (the core of every line-structure argument). An independent line '
-             'grammar (model/LineGrammar.v, extracted) judges every line of the implementation\'s text, OpenMetrics and Graphite output; '
-             'line counts are checked against the collected families; renderers are tied byte-exactly to the models.',
-        note='Partial until the per-line grammar-acceptance theorem is proved. Trusted: Coq kernel, extraction/driver, the grammar itself '
-             '(it is the specification), CPython repr characters, socket layer of the Graphite bridge (interposed).',
+        text="13 theorems: escaped text never contains a raw line feed; line counts of the text and OpenMetrics expositions are functions of family/sample counts only; every sample, HELP, TYPE and UNIT line of both formats is accepted by the independent line grammar (model/LineGrammar.v) whatever the supplied strings are; WHOLE DOCUMENTS: the grammar's document recognisers accept the text exposition (text_doc_ok) and the OpenMetrics exposition (om_doc_ok: exactly one EOF line, the last, and the EOF line is none of the other kinds); Graphite line shape and alphabet. The extracted grammar also judges every line of the implementation's real output; renderers are tied byte-exactly to the models.",
+        note="Hypotheses are about pieces no application supplies: the type word is one of the eight type words, CPython's float rendering is a number token without line feed (re-checked per case). Trusted: Coq kernel, extraction/driver, the grammar itself (it is the specification), socket layer of the Graphite bridge (interposed).",
         technique='Coq proof over executable Gallina models + extracted independent grammar as oracle + differential correspondence',
         ref='7/C05'),
     'C14': dict(
-        text='Model of the text parser in a result monad in which every Python operation that can raise does so with its exception '
-             'class; theorems that the repaired helpers raise only ValueError and refutation witnesses for the pinned source; outcome '
-             'class and parsed families compared with the implementation on valid documents, all truncations, token-level mutations '
-             'and all short strings over the special alphabet, each under a watchdog.',
-        note='Partial: whole-parser totality theorem in progress; OpenMetrics half merged when harness/c14om.py is present. Trusted: '
-             'CPython int()/float() raise only ValueError on str (OverflowError of int/1000 is modelled), re classes.',
+        text='24 theorems: BOTH parsers are total - for every input string and every oracle the model returns families or ValueError, never another exception class and never the out-of-fuel value (termination): text_parse_total for the text parser (fresh-scan invariant), C14_om_total for the OpenMetrics parser (one theorem per reader, _check_histogram under the line-loop invariant, flush, step, fuel sufficiency of the regex loops), refutation witnesses for the pinned source (KeyError, TypeError, AttributeError, OverflowError, IndexError escapes, all repaired). Tie: outcome class and parsed families compared with the implementation on valid documents, all truncations, token-level mutations and all short strings over the special alphabet, each under a watchdog.',
+        note='One platform hypothesis in C14_om_total: a character of the regex class \\d is not str.strip() whitespace (checked over all code points at every run; shown necessary by an Example). Trusted: CPython int()/float() raise only ValueError on str (OverflowError of int/1000 is modelled), re classes answered by CPython.',
         technique='Coq proof over executable Gallina model (result monad) + differential correspondence + direct totality oracle',
         ref='7/C14'),
     'C19': dict(
@@ -63,7 +53,7 @@ CLAIMED = {
         technique='Coq proof over executable Gallina model (encoder + decoder) + exact-URL differential correspondence + independent decoder oracle',
         ref='7/C19'),
     'C06': dict(
-        text="16 theorems over the model of CollectorRegistry.register/unregister/set_target_info (model/Registry.v): the ownership invariant holds after EVERY history (failed calls included), no two registered collectors claim a name, a failed call leaves the registry exactly unchanged and raises ValueError, unregister releases all and only the collector's names, re-registration works. Tie: histories over a clash-rich alphabet (exhaustive to depth 3-4, random to 40) compared step by step through public behaviour only (restricted_registry look-ups, collect(), get_target_info()).",
+        text="18 theorems over the model of CollectorRegistry.register/unregister/set_target_info (model/Registry.v): the ownership invariant holds after EVERY history (failed calls included), no two registered collectors claim a name, a failed call leaves the registry exactly unchanged and raises ValueError, unregister releases all and only the collector's names, re-registration works. Tie: histories over a clash-rich alphabet (exhaustive to depth 3-4, random to 40) compared step by step through public behaviour only (restricted_registry look-ups, collect(), get_target_info()).",
         note='Trusted: Coq kernel, extraction/driver, dict insertion order modelled as association lists, collectors do not change during a history.',
         technique='Coq proof over executable Gallina model + differential correspondence (extracted OCaml) + direct property oracle',
         ref='7/C06'),
@@ -73,7 +63,7 @@ CLAIMED = {
         technique='Coq proof over executable Gallina model + differential correspondence (extracted OCaml) + direct property oracle',
         ref='7/C07'),
     'C08': dict(
-        text='13 theorems over the model of MultiProcessCollector.merge (model/Multiproc.v) and its declarative spec: every series equals the per-mode aggregate of its contributions in read order, no series duplicated or dropped, histogram buckets merged per parsed bound, sorted, cumulative, _count = +Inf bucket, min/max order independent for NaN-free input, mark_process_dead removes exactly the live-mode gauge files of that pid. Tie: 1-4 simulated processes (child interpreter with PROMETHEUS_MULTIPROC_DIR), all 10 gauge modes, dead pids, pid reuse; model fed the entries read from the files in the actual read order; thorough tier forks real workers.',
+        text='36 theorems over the model of MultiProcessCollector.merge (model/Multiproc.v) and its declarative spec: every series equals the per-mode aggregate of its contributions in read order, no series duplicated or dropped, histogram buckets merged per parsed bound, sorted, cumulative, _count = +Inf bucket, min/max order independent for NaN-free input, mark_process_dead removes exactly the live-mode gauge files of that pid. Tie: 1-4 simulated processes (child interpreter with PROMETHEUS_MULTIPROC_DIR), all 10 gauge modes, dead pids, pid reuse; model fed the entries read from the files in the actual read order; thorough tier forks real workers. Added (C08h, model/MultiHist.v): over WORKER HISTORIES - any interleaving of worker steps on one shared directory, any mark_process_dead points and pid reuse - the files of a pid are those of the single-process run of its calls, and each counter/summary/histogram/gauge series the collector reports is the per-mode aggregate of the workers in-memory values; replayed against the real code by a multi-history stream.',
         note='Trusted: float order laws as Section hypotheses (< irreflexive/transitive, totality on non-NaN), floatToGoString injective on bounds, JSON key codec, glob order observed not assumed.',
         technique='Coq proof over executable Gallina model + differential correspondence (extracted OCaml) + direct property oracle',
         ref='7/C08'),
@@ -103,7 +93,7 @@ CLAIMED = {
         technique='Coq proof over executable Gallina model + differential correspondence (extracted OCaml) + direct property oracle',
         ref='7/C01'),
     'C02': dict(
-        text="11 theorems over an interleaving semantics with the library's operation programs (model/Conc.v), for every thread count, program list and schedule: mutual exclusion, every cell equals the fold of the updates applied to it (no lost update), equal labels -> one child, deadlock freedom from the lock-rank invariant, every load reports a value the cell held, counters monotone, every callout made holding no lock; refutation witness for an unlocked increment. Tie: (1) trace conformance under a deterministic scheduler with a cooperative TracedLock and logging descriptors, replayed event by event in the extracted model; (2) bounded exploration of the implementation (<= 2 pre-emptions quick, <= 3 thorough, both back-ends) with the direct oracle; (3) final-state comparison.",
+        text="25 theorems over an interleaving semantics with the library's operation programs (model/Conc.v), for every thread count, program list and schedule: mutual exclusion, every cell equals the fold of the updates applied to it (no lost update), equal labels -> one child, deadlock freedom from the lock-rank invariant, every load reports a value the cell held, counters monotone, every callout made holding no lock; refutation witness for an unlocked increment. Tie: (1) trace conformance under a deterministic scheduler with a cooperative TracedLock and logging descriptors, replayed event by event in the extracted model; (2) bounded exploration of the implementation (<= 2 pre-emptions quick, <= 3 thorough, both back-ends) with the direct oracle; (3) final-state comparison. Added: the FINAL value of every increment-only cell (static or labelled child) equals its initial value plus the sum of the amounts in the program text when all threads have finished and none raised; every schedule of straight programs terminates within total_steps; the library's own operation programs are disciplined for any number of value objects.",
         note='Partial by design: proved for the lock-level abstraction. Trusted runtime facts: the GIL makes one bytecode and one built-in dict operation atomic; threading.Lock is a mutex; mmap slice writes not modelled below the slice; amounts are integers; the scheduler and interposition code.',
         technique='Coq proof over executable Gallina model + differential correspondence (extracted OCaml) + direct property oracle',
         ref='7/C02'),
@@ -118,12 +108,12 @@ CLAIMED = {
         technique='Coq proof over executable Gallina model + differential correspondence (extracted OCaml) + direct property oracle',
         ref='7/C11'),
     'C15': dict(
-        text='24 theorems: for the validation rules of the OpenMetrics parser model (model/OMParser.v), a violated rule makes the parse fail for ALL documents/positions/groups: blank line, missing or non-final # EOF, histogram bounds not increasing or counts not cumulative on adjacent buckets of any group, missing +Inf in any group, counter-like NaN/negative, info value, stateset value/label, quantile range, integral counts, le label, exemplar eligibility and length, timestamps partial or backwards in a group, duplicate label names. Tie: valid generated documents x one rule-violating transformation at every applicable position: implementation must raise ValueError and agree with the model.',
-        note="Partial: repeated/late metadata, interleaved/clashing families and unit rules are covered by correspondence and direct oracle only; _count placement other than directly after the bucket likewise. Two known findings (duplicate bucket line dropped before the checks; le spelt 'nan').",
+        text='58 theorems: for every validation rule named in the property, a violated rule makes the parse fail for ALL documents, positions and groups and arbitrary oracles: blank line, missing / repeated / non-final # EOF (and every accepted document has exactly one, last), repeated or late HELP/TYPE/UNIT, interleaved or clashing families (invariant: a clash once reached is final), unit not suffixing the name or on info/stateset, histogram groups without +Inf, bounds not increasing, counts not cumulative or not integral, _count/_gcount different from the +Inf bucket wherever it stands in the group, NaN/negative counter-like samples, info/stateset values and label, quantile range, timestamps going backwards or partly present (lifted to documents), duplicate label names, exemplar eligibility and length.',
+        note='Two known findings (duplicate bucket line dropped before validation; le="nan" accepted); the later-exposure defect found while proving the count rule is repaired. Trusted: CPython float()/int()/comparison answered over the oracle pipe; re classes.',
         technique='Coq proof over executable Gallina model + differential correspondence (extracted OCaml) + direct property oracle',
         ref='7/C15'),
     'C12': dict(
-        text="14 theorems over the composition of the C01, C08/C09 models (model/Equiv.v): for every single-process history over counters, gauges of all 10 modes, summaries and histograms, norm(in-memory collection) and norm(multiprocess collection of the same history written through the file-backed store and merged by the collector) are equal as multisets up to label order and numeric value (C12_equiv), call-by-call the two back-ends return the same outcome, each family's file holds exactly the encoding of the in-memory children, no foreign families. Tie: the same history driven through the real in-process back-end and, in a child interpreter, through the real file-backed back-end and MultiProcessCollector; both compared with their models and with each other (direct oracle) after every step.",
+        text="18 theorems over the composition of the C01, C08/C09 models (model/Equiv.v): for every single-process history over counters, gauges of all 10 modes, summaries and histograms, norm(in-memory collection) and norm(multiprocess collection of the same history written through the file-backed store and merged by the collector) are equal as multisets up to label order and numeric value (C12_equiv), call-by-call the two back-ends return the same outcome, each family's file holds exactly the encoding of the in-memory children, no foreign families. Tie: the same history driven through the real in-process back-end and, in a child interpreter, through the real file-backed back-end and MultiProcessCollector; both compared with their models and with each other (direct oracle) after every step. Added: the float-domain hypothesis counts_small is discharged from the history length (fewer than 2^53 observe calls).",
         note='Domain of the theorem: no remove()/clear(), histogram bounds strictly increasing with non-negative first bound, no gauge label named pid, counts < 2^53 (the four excluded classes are known findings with _refuted witnesses: negative first bound exposes _sum only in multiprocess mode, numerically equal bounds merge, a label named pid is overwritten/stripped, remove()/clear() are not implemented by the file store). Trusted: float laws FL1/FL4 and < facts as Section hypotheses, JSON key codec.',
         technique='Coq proof over executable Gallina model + differential correspondence (extracted OCaml) + direct property oracle',
         ref='7/C12'),
